@@ -808,6 +808,116 @@ def commitOld (C : Crypto) (n : Node) (ops : List RawTx) (ts : Nat) : Node × Co
     | .ok c' => ({ n with chain := c' }, .ok c'.height)
     | .error e => ({ n with chain := { n.chain with store := snap } }, .appendFailed e)
 
+/-! ### `TensorStateMachine` as an object: the fast path and the recent-embedding window
+
+    `apply_block` / `apply_entry` choose between `append_fast` and `append_full` by `can_fast_path(block)`: the
+    block's delta embedding is non-empty and its cosine similarity to one of the (at most `max_recent` = 10)
+    embeddings this OBJECT tracked — the non-empty embeddings of the blocks it accepted since it was created or
+    `clear_recent()` was called — reaches `fast_path_threshold`.  The window is in memory only and private to the
+    object: two replicas that hold the same store and the same chain may hold different windows (one was restarted,
+    one was created with another threshold, one had its window cleared).  The float arithmetic is opaque
+    (`FastPath`: what the code reads of an embedding); everything else is mirrored branch by branch. -/
+
+/-- what `can_fast_path` / `track_embedding` read of the serialised delta embeddings -/
+structure FastPath where
+  /-- `delta_embedding.nnz() != 0` -/
+  nonzero : List Nat → Bool
+  /-- `block_embedding.cosine_similarity(recent_emb) >= self.fast_path_threshold` (first argument: the block's) -/
+  similar : List Nat → List Nat → Bool
+  /-- `max_recent` -/
+  maxRecent : Nat
+
+/-- one `TensorStateMachine`: the replica it drives and its `recent_embeddings` (oldest first) -/
+structure Machine where
+  rep : Replica
+  recent : List (List Nat)
+deriving DecidableEq, Repr
+
+/-- `can_fast_path`: no embedding ⇒ no; empty window ⇒ no; otherwise the maximum similarity over the window reaches
+    the threshold, i.e. some entry does -/
+def canFastPath (F : FastPath) (recent : List (List Nat)) (b : Block) : Bool :=
+  if F.nonzero b.header.embedding = false then false
+  else if recent.isEmpty then false
+  else recent.any (F.similar b.header.embedding)
+
+/-- `append_fast`: "still do basic structural validation via Chain::append" -/
+def appendFast (C : Crypto) (reg : Option (List (List Nat × Nat))) (c : ChainSt) (b : Block) : Except AppendErr ChainSt :=
+  append C reg c b
+
+/-- `append_full`: "full validation path through Chain::append" -/
+def appendFull (C : Crypto) (reg : Option (List (List Nat × Nat))) (c : ChainSt) (b : Block) : Except AppendErr ChainSt :=
+  append C reg c b
+
+/-- `while recent.len() > max_recent { recent.remove(0) }` -/
+def trimFront (n : Nat) (l : List (List Nat)) : List (List Nat) := l.drop (l.length - n)
+
+/-- `track_embedding` -/
+def trackEmbedding (F : FastPath) (recent : List (List Nat)) (b : Block) : List (List Nat) :=
+  if F.nonzero b.header.embedding = false then recent
+  else trimFront F.maxRecent (recent ++ [b.header.embedding])
+
+/-- `TensorStateMachine::apply_block` (and `apply_entry` after its config-change filter: the same statements) as the
+    code is NOW: snapshot, apply the transactions, compare the state root ON EVERY PATH, then the fast or the full
+    append, restore on any failure, track the embedding of an accepted block -/
+def applyBlockM (F : FastPath) (C : Crypto) (reg : Option (List (List Nat × Nat))) (m : Machine) (b : Block) :
+    Machine × Option ApplyErr :=
+  let snap := m.rep.stateStore
+  let r1 := m.rep.setState (applyTxs snap b.txs)
+  if b.header.stateRoot ≠ stateRoot C r1.stateStore then ({ m with rep := r1.setState snap }, some .stateRoot)
+  else
+    match (if canFastPath F m.recent b then appendFast C reg r1.chain b else appendFull C reg r1.chain b) with
+    | .ok c' => ({ rep := { r1 with chain := c' }, recent := trackEmbedding F m.recent b }, none)
+    | .error e => ({ m with rep := r1.setState snap }, some (.append e))
+
+/-- the variant in which the fast path also skips the state-root comparison ("the fast path skips heavy
+    validation": regression fixture seeded/C16_4) — kept only for the witnesses in `Props4.lean` -/
+def applyBlockFastPathSkipsStateRoot (F : FastPath) (C : Crypto) (reg : Option (List (List Nat × Nat))) (m : Machine)
+    (b : Block) : Machine × Option ApplyErr :=
+  let snap := m.rep.stateStore
+  let r1 := m.rep.setState (applyTxs snap b.txs)
+  let fast := canFastPath F m.recent b
+  if fast = false ∧ b.header.stateRoot ≠ stateRoot C r1.stateStore then ({ m with rep := r1.setState snap }, some .stateRoot)
+  else
+    match (if fast then appendFast C reg r1.chain b else appendFull C reg r1.chain b) with
+    | .ok c' => ({ rep := { r1 with chain := c' }, recent := trackEmbedding F m.recent b }, none)
+    | .error e => ({ m with rep := r1.setState snap }, some (.append e))
+
+/-- what happens to one replica between two blocks, besides receiving the next block -/
+inductive MOp where
+  /-- `apply_block(b)` -/
+  | apply (b : Block)
+  /-- the process restarts: `TensorStateMachine::new` / `with_threshold` over the same chain and the same store -/
+  | restart
+  /-- `clear_recent()` -/
+  | clear
+deriving DecidableEq, Repr
+
+def stepM (F : FastPath) (C : Crypto) (reg : Option (List (List Nat × Nat))) (m : Machine) : MOp → Machine
+  | .apply b => (applyBlockM F C reg m b).1
+  | .restart => { m with recent := [] }
+  | .clear => { m with recent := [] }
+
+def runM (F : FastPath) (C : Crypto) (reg : Option (List (List Nat × Nat))) (m : Machine) (ops : List MOp) : Machine :=
+  ops.foldl (stepM F C reg) m
+
+/-- the verdicts of the `apply_block` calls of a run, in order -/
+def verdictsM (F : FastPath) (C : Crypto) (reg : Option (List (List Nat × Nat))) : Machine → List MOp → List (Option ApplyErr)
+  | _, [] => []
+  | m, .apply b :: ops => (applyBlockM F C reg m b).2 :: verdictsM F C reg (applyBlockM F C reg m b).1 ops
+  | m, o :: ops => verdictsM F C reg (stepM F C reg m o) ops
+
+/-- the blocks a run feeds to the replica -/
+def blocksOf : List MOp → List Block
+  | [] => []
+  | .apply b :: ops => b :: blocksOf ops
+  | _ :: ops => blocksOf ops
+
+/-- the driver's embeddings: `[]` = the zero vector, `[c, p]` = direction class `c` with perturbation `p`.  With the
+    default threshold (0.95) two embeddings are similar exactly when they are of one class; with threshold 0 every
+    pair of non-empty embeddings is (the harness's vectors have no negative component). -/
+def drvFast (all : Bool) : FastPath :=
+  { nonzero := fun e => !e.isEmpty, similar := fun a b => all || a.head? == b.head?, maxRecent := 10 }
+
 /-! ### the driver's concrete crypto: injective encodings -/
 
 def drvCrypto : Crypto :=
